@@ -92,6 +92,27 @@ def job(j):
             st["n"] += 1
             flag({"type": w.types[ti - 1], "ti": ti}, way, q, variables, expect_not_delivered(w, resp, "e%d" % ti, way), resp)
 
+    def null_nested_ways(w):
+        """a null / absent variable at a non-null position inside a list or object literal is never delivered"""
+        idx = {render.typeref(t): i for i, t in enumerate(w.types, 1)}
+        for tys, q, way in [("[Int!]", "query ($x: Int) { s e%d(a: [1, $x]) }", "null-variable-in-nonnull-list-item"),
+                            ("[Int!]!", "query ($x: Int) { s e%d(a: [$x]) }", "null-variable-in-nonnull-list-item"),
+                            ("[[Int!]!]!", "query ($x: Int) { s e%d(a: [[1], [$x, 2]]) }", "null-variable-in-nonnull-list-item"),
+                            ("In1", "query ($x: Int) { s e%d(a: {r: $x}) }", "null-variable-in-nonnull-input-field"),
+                            ("[In1]", "query ($x: Int) { s e%d(a: [{r: $x}]) }", "null-variable-in-nonnull-input-field"),
+                            ("In1", "query ($x: Int) { s e%d(a: {r: 1, y: [$x]}) }", "null-variable-in-nonnull-list-item")]:
+            ti = idx[tys]
+            for variables in ({"x": None}, {}):
+                for where in ("field", "directive"):
+                    qq = q % ti if where == "field" else q.replace("e%d(", "@p%d(") % ti
+                    resp = w.run(qq, variables)
+                    st["n"] += 1
+                    if where == "field":
+                        mm = expect_not_delivered(w, resp, "e%d" % ti, way)
+                    else:
+                        mm = [] if (isinstance(resp, dict) and resp.get("errors") and not w.dcalls) else ["%s (directive): hook ran / no error: %r %r" % (way, w.dcalls, resp)]
+                    flag({"type": w.types[ti - 1], "ti": ti}, way + "-" + where, qq, variables, mm, resp)
+
     def deep_ways(w):
         """a variable two levels deep in a literal, the same text executed with different values (field and directive positions)"""
         idx = {render.typeref(t): i for i, t in enumerate(w.types, 1)}
@@ -123,6 +144,7 @@ def job(j):
             st["w"] = inputworld.InputWorld(rec)
             if cfg.endswith("_0.cfg"):
                 deep_ways(st["w"])
+                null_nested_ways(st["w"])
             if cfg.endswith("_0.cfg"):
                 illtyped_ways(st["w"])
             return
